@@ -1,5 +1,7 @@
 #!/bin/sh
-# Build the framework from files on disk only (offline).
+# Build the framework from files on disk only (offline): translator, generated
+# model, Coq development, harness (two profiles), extracted model driver, hwrun.
 set -e
 cd "$(dirname "$0")"
-exit 0
+export CARGO_NET_OFFLINE=true
+exec ./check setup
